@@ -64,6 +64,7 @@ type Plan struct {
 	Steps      []string    `json:"steps,omitempty"` // replay: labels to take (lenient)
 	MaxSteps   int         `json:"max_steps"`
 	ConvFail   bool        `json:"conv_fail,omitempty"`   // converter transient failures
+	ConvGarble bool        `json:"conv_garble,omitempty"` // converter breaks the protocol once per stream version (one malformed line, then a normal answer)
 	MergeFail  bool        `json:"merge_fail,omitempty"`  // disk error: creating the merged index file fails (every merge)
 	ImportFail int         `json:"import_fail,omitempty"` // disk error: the first n index file creations of imports fail
 	Restarts   []int       `json:"restarts,omitempty"`    // clean restart after these step numbers
@@ -201,6 +202,7 @@ func Gen(prop, tier string, seed, run uint64) Plan {
 	}
 	if prop == "C16" || prop == "C09" || prop == "C20" {
 		p.ConvFail = useConv && r.IntN(3) == 0
+		p.ConvGarble = useConv && !p.ConvFail && r.IntN(4) == 0
 	}
 	if prop == "C09" || prop == "C13" {
 		p.MergeFail = r.IntN(5) == 0
